@@ -1,6 +1,7 @@
 package main
 
 import (
+	"bytes"
 	"fmt"
 	"reflect"
 	"runtime"
@@ -56,7 +57,7 @@ func opRace(p []string) string {
 	r := &rng{s: seed}
 	var types []reflect.Type
 	for _, v := range []interface{}{Inner{}, WithPtr{}, Emb{}, Rec{}, Tagged{}, OmitAll{}, Nums{}, HasShape{}, MapKeyed{}, []TrNum{}, map[string]interface{}{},
-		[]interface{}{}, StrMap{}, map[KeyStruct]string{}, []byte{}} {
+		[]interface{}{}, StrMap{}, map[KeyStruct]string{}, []byte{}, []Shape{}, HasShape{}, []Shape{}} {
 		types = append(types, reflect.TypeOf(v))
 	}
 	zas := zooAtlases()
@@ -95,6 +96,10 @@ func opRace(p []string) string {
 					}
 				}
 				j.data = c
+			} else if r.chance(1, 2) {
+				// unknown union member names (no-op for inputs without a union)
+				c := bytes.Replace(append([]byte{}, b...), []byte("circle"), []byte("circlf"), -1)
+				j.data = bytes.Replace(c, []byte("sq"), []byte("sr"), -1)
 			}
 		}
 		jobs = append(jobs, j)
